@@ -24,6 +24,12 @@ universe declared by `univ`.
   txadv <dt>                       -> ok
   txscan / txgetmatch / txdelmatch <pat>   -> model=… spec=…   spec: the same command on Tx.direct, by glob
   txlive                           -> model=<ids visible in the transaction> spec=<live ids of Tx.direct>
+  cap <n>                          -> ok                       capacity (`size`) of the in-memory store (before `store`)
+  itstart scan|getmatch <pat>      -> ok                       an iteration is created (snapshot of the store: taken at the first step)
+  itnext                           -> model=<id> | model=<id>=<val> | model=end      one `__anext__` (Glob.scanNext / getMatchNext);
+                                                               a key that vanished since the snapshot comes out of get_match as `<id>=n`
+                                                               (the default `None`; the code cannot tell it from a stored None)
+  mdel <id> | mset <id> <val> <ttl|-> | mget <id> | madv <dt>  -> ok     what the consumer does between two steps (Mem model)
   match <pat> <key>                -> model=T|F spec=T|F
   src <pat>                        -> src=<str> parse=ok|bad   text given to re.compile; does the fragment reader return translate pat?
 -/
@@ -33,6 +39,9 @@ structure St where
   names : Array (List Char) := #[]
   mem : Mem := Mem.init 1000000
   tx : Tx := { now := 0, backend := [], overlay := [], del := [] }
+  cap : Nat := 1000000
+  /-- a running iteration: get_match?, pattern, what is left of the snapshot (`none` until the first step) -/
+  it : Option (Bool × List Char × Option Store) := none
 
 def decodeStr? (s : String) : Option (List Char) :=
   match s.toList with
@@ -103,12 +112,56 @@ def step (st : St) (line : String) : St × String :=
   match words line with
   | "univ" :: ws =>
     match allSome (ws.map decodeStr?) with
-    | some ns => ({ st with names := ns.toArray }, s!"ok n={ns.length}")
+    | some ns => ({ st with names := ns.toArray, cap := 1000000, it := none }, s!"ok n={ns.length}")   -- a new case
     | none => (st, "bad-op")
   | "store" :: now :: es =>
     match now.toNat?, allSome (es.map parseEntry?) with
-    | some n, some entries => ({ st with mem := { now := n, cap := 1000000, store := entries } }, "ok")
+    | some n, some entries => ({ st with mem := { now := n, cap := st.cap, store := entries } }, "ok")
     | _, _ => (st, "bad-op")
+  | ["cap", n] =>
+    match n.toNat? with
+    | some n => ({ st with cap := n, mem := { st.mem with cap := n } }, "ok")
+    | none => (st, "bad-op")
+  | ["itstart", what, p] =>
+    match decodeStr? p with
+    | some pat =>
+      if what = "scan" then ({ st with it := some (false, pat, none) }, "ok")
+      else if what = "getmatch" then ({ st with it := some (true, pat, none) }, "ok")
+      else (st, "bad-op")
+    | none => (st, "bad-op")
+  | ["itnext"] =>
+    match st.it with
+    | none => (st, "bad-op")
+    | some (gm, pat, snap?) =>
+      let snap := snap?.getD st.mem.store            -- `dict(self.store)` at the first step
+      if gm then
+        let r := getMatchNext st.name isBits pat st.mem snap
+        let out := match r.1.2 with
+          | none => "end"
+          | some (k, v) => s!"{k}={match v with | some v => showValG v | none => "n"}"
+        ({ st with mem := r.1.1, it := some (gm, pat, some r.2) }, s!"model={out}")
+      else
+        let r := scanNext st.name pat st.mem.now snap
+        let out := match r.1 with
+          | none => "end"
+          | some k => toString k
+        ({ st with it := some (gm, pat, some r.2) }, s!"model={out}")
+  | ["mdel", k] =>
+    match k.toNat? with
+    | some k => ({ st with mem := (st.mem.rawDelete k).1 }, "ok")
+    | none => (st, "bad-op")
+  | ["mset", k, v, ttl] =>
+    match k.toNat?, parseValG? v, parseTtl? ttl with
+    | some k, some v, some ttl => if isBits v then (st, "bad-op") else ({ st with mem := st.mem.rawSet k v ttl }, "ok")
+    | _, _, _ => (st, "bad-op")
+  | ["mget", k] =>
+    match k.toNat? with
+    | some k => ({ st with mem := (st.mem.rawGet k).1 }, "ok")
+    | none => (st, "bad-op")
+  | ["madv", dt] =>
+    match dt.toNat? with
+    | some dt => ({ st with mem := { st.mem with now := st.mem.now + dt } }, "ok")
+    | none => (st, "bad-op")
   | ["scan", p] =>
     match decodeStr? p with
     | some pat => (st, answer (showIds (scan st.name st.mem pat)) (showIds (scanSpec st.name st.mem pat)))
